@@ -168,5 +168,5 @@ func c10TS(run *Run, s *Session) (string, []*CaseResult) {
 	for i, cr := range results {
 		cr.Apply(vs[i])
 	}
-	return fmt.Sprintf("node %s drove the catch block of the emitted *_server.ts on %d scripted failures; the TS client's handleError is covered by the model and its theorems only", nodeBin, len(results)), results
+	return fmt.Sprintf("node %s drove the catch block of the emitted *_server.ts on %d scripted failures (the TS client's handleError: family ts-client-error, c10_tsclient.go)", nodeBin, len(results)), results
 }
